@@ -29,6 +29,8 @@ pub enum Op {
     UpdateChunks { g: u8, off: u32, total: u32, chunk: u32 },
     /// replace generator g by a fresh one (via new() or Default::default())
     Reset { g: u8, via_default: bool },
+    /// `live[dst].clone_from(&live[src])` (in-place clone: the destination's old state must vanish completely)
+    CloneFrom { dst: u8, src: u8 },
 }
 
 #[derive(Clone, Debug, Hash, PartialEq, Eq)]
@@ -69,6 +71,7 @@ fn kind_code(op: &Op) -> u64 {
         Op::Drop { .. } => 6,
         Op::UpdateChunks { .. } => 7,
         Op::Reset { .. } => 8,
+        Op::CloneFrom { .. } => 9,
     }
 }
 
@@ -217,6 +220,21 @@ fn run<K: Kind>(h: &Hist, pool: &[u8], st: &mut Stats, fnv: &mut Fnv, states: &m
                 let i = gi(*g);
                 live[i] = Live { g: if *via_default { <K::G as Default>::default() } else { K::new_gen() }, seen: Vec::new() };
             }
+            Op::CloneFrom { dst, src } => {
+                let (d, sidx) = (gi(*dst), gi(*src));
+                if d != sidx {
+                    let (sg, sseen) = (live[sidx].g.clone(), live[sidx].seen.clone());
+                    if live[d].seen.len() >= 5 && sseen.len() < 5 {
+                        st.hit("probe.clone_from_short_source_into_used_destination");
+                    }
+                    live[d].g.clone_from(&sg);
+                    live[d].seen = sseen;
+                    st.hit("clone_from");
+                    if let Some(v) = check_all(&live[d], &[30, 0], fnv) {
+                        return Some(Violation { class: format!("clone-from-{}", v.class), detail: format!("step {step}: after clone_from: {}", v.detail) });
+                    }
+                }
+            }
         }
         prev_kind = kind_code(op);
     }
@@ -224,6 +242,24 @@ fn run<K: Kind>(h: &Hist, pool: &[u8], st: &mut Stats, fnv: &mut Fnv, states: &m
     for l in &live {
         if let Some(v) = check_all(l, &ALL, fnv) {
             return Some(Violation { detail: format!("end of run: {}", v.detail), ..v });
+        }
+        // ... and a second, fixed chunking of the same bytes (997-byte pieces): whatever shape the history had, this
+        // compares "one big piece" with "many medium pieces" (a size-gated path in update() shows up here even when the
+        // history itself fed everything in one piece)
+        if l.seen.len() >= 2000 {
+            let mut c = K::new_gen();
+            for piece in l.seen.chunks(997) {
+                c.update(piece);
+            }
+            st.hit("probe.second_reference_chunking");
+            for o in [30u8, 28, 0] {
+                let opt = options(o);
+                let a = render(&c.finalize_with_options(&opt));
+                let b = render(&l.g.finalize_with_options(&opt));
+                if a != b || c.processed_len() != l.g.processed_len() {
+                    return mk("chunked-differs-from-one-shot", format!("end of run: {} bytes seen, options#{o}: the history gives {b} (len {:?}), the same bytes in 997-byte pieces give {a} (len {:?})", l.seen.len(), l.g.processed_len(), c.processed_len()));
+                }
+            }
         }
     }
     None
@@ -247,12 +283,22 @@ impl Scenario for C03 {
         let len = match r.below(100) {
             0..=69 => draw_small_len(r).min(400),
             70..=91 => draw_small_len(r),
-            92..=95 => r.range(4096, 65536) as usize,
-            96..=97 => *r.pick(&[65535usize, 65536, 65537, 131072, 200_000, 262144 + 5, 524288]),
+            92..=94 => r.range(4096, 65536) as usize,
+            95..=97 => *r.pick(&[40_000usize, 65535, 65536, 65537, 70_000, 100_000, 131072, 200_000, 262144 + 5, 524288]),
             _ => r.range(1 << 20, 3 << 20) as usize,
         };
         let len = if crate::data::small() { len.min(300) } else { len };
-        let pool = draw_data(r, len);
+        let mut pool = draw_data(r, len);
+        if len >= 32768 && r.chance(2, 5) {
+            // long stretches of extremely repetitive data (one or two byte values): per-bucket hit rates of several per byte
+            let p = r.range(1, 3) as usize;
+            let mut pattern = vec![0u8; p];
+            r.fill(&mut pattern);
+            if r.chance(1, 4) {
+                pattern = vec![0xa4, 0x0e];
+            }
+            pool = DataDesc::Periodic { pattern, len };
+        }
         let nops = if crate::data::small() {
             r.range(1, 12)
         } else if len > 1 << 19 {
@@ -284,6 +330,8 @@ impl Scenario for C03 {
                 Op::UpdateChunks { g, off, total, chunk }
             } else if x < 74 {
                 Op::Reset { g, via_default: r.chance(1, 2) }
+            } else if x < 76 {
+                Op::CloneFrom { dst: g, src: r.below(MAX_LIVE as u64) as u8 }
             } else if x < 78 {
                 Op::Len { g }
             } else if x < 84 {
@@ -395,6 +443,7 @@ impl Scenario for C03 {
                 Op::Drop { g } => format!("Drop({g})"),
                 Op::UpdateChunks { g, off, total, chunk } => format!("UpdateChunks({g},{off},{total},{chunk})"),
                 Op::Reset { g, via_default } => format!("Reset({g},{})", *via_default as u8),
+                Op::CloneFrom { dst, src } => format!("CloneFrom({dst},{src})"),
             })
             .collect();
         json!({"variant": VARIANT_NAMES[h.variant as usize], "variant_id": h.variant, "pool": h.pool.to_json(), "ops": ops,
@@ -444,6 +493,10 @@ impl Scenario for C03 {
                 "Reset" => {
                     need(2)?;
                     Op::Reset { g: args[0] as u8, via_default: args[1] != 0 }
+                }
+                "CloneFrom" => {
+                    need(2)?;
+                    Op::CloneFrom { dst: args[0] as u8, src: args[1] as u8 }
                 }
                 _ => return Err(format!("unknown op {s}")),
             });
